@@ -1094,6 +1094,59 @@ pub(crate) fn gen_history(rng: &mut Rng, focus: &str, thorough: bool, page: usiz
         steps.push(step);
     }
     if focus == "c13" {
+        // compaction attempts against each kind of pin, alone and on top of pending non-durable
+        // commits (a pending non-durable commit pins its durable ancestor internally, which
+        // must not be mistaken for - nor hide - a user's reader or savepoint on the same id)
+        let mk = |rng: &mut Rng, durability, sp_ops: Vec<SpOp>| {
+            let n = rng.range(1, 5) as usize;
+            Step::Txn(TxnSpec { durability, two_phase: false, quick_repair: false, sp_ops, ops: gen_ops(rng, page, n), end: End::Commit })
+        };
+        for _ in 0..rng.range(1, 3) {
+            match rng.below(5) {
+                0 => {
+                    // a reader on the last durable commit, then pending non-durable commits
+                    steps.push(mk(rng, Durability::Immediate, vec![]));
+                    steps.push(Step::BeginRead);
+                    for _ in 0..rng.range(1, 3) {
+                        steps.push(mk(rng, Durability::None, vec![]));
+                    }
+                    steps.push(Step::Compact);
+                    steps.push(Step::DropReader(rng.below(8) as usize));
+                }
+                1 => {
+                    // a reader on a non-durable snapshot
+                    steps.push(mk(rng, Durability::None, vec![]));
+                    steps.push(Step::BeginRead);
+                    if rng.chance(1, 2) {
+                        steps.push(mk(rng, Durability::None, vec![]));
+                    }
+                    steps.push(Step::Compact);
+                }
+                2 => {
+                    // an ephemeral or persistent savepoint, then pending non-durable commits
+                    let sp = if rng.chance(1, 2) { SpOp::Ephemeral } else { SpOp::Persistent };
+                    steps.push(mk(rng, Durability::Immediate, vec![sp]));
+                    for _ in 0..rng.range(0, 2) {
+                        steps.push(mk(rng, Durability::None, vec![]));
+                    }
+                    steps.push(Step::Compact);
+                }
+                3 => {
+                    // pending non-durable commits only: compaction must run
+                    steps.push(mk(rng, Durability::Immediate, vec![]));
+                    for _ in 0..rng.range(1, 3) {
+                        steps.push(mk(rng, Durability::None, vec![]));
+                    }
+                    steps.push(Step::Compact);
+                }
+                _ => {
+                    steps.push(Step::BeginRead);
+                    steps.push(Step::Compact);
+                    steps.push(Step::DropReader(0));
+                    steps.push(Step::Compact);
+                }
+            }
+        }
         // compaction of a quiescent, fragmented database
         steps.push(Step::Reopen);
         steps.push(Step::Compact);
@@ -1118,6 +1171,10 @@ pub(crate) fn describe(step: &Step) -> String {
 
 impl World {
     pub(crate) fn run_step(&mut self, step: &Step, out: &mut Out) -> bool {
+        crate::out::doing(&describe(step));
+        if matches!(step, Step::Compact | Step::CheckIntegrity | Step::Reopen | Step::CrashReopen) {
+            out.flush();
+        }
         self.step_no += 1;
         let desc = describe(step);
         out.count(&format!("step_{}", desc.split(|c| c == ' ' || c == '(').next().unwrap()));
@@ -1250,7 +1307,14 @@ pub fn run_history(steps: &[Step], cfg: Cfg, focus: &str, out: &mut Out) -> bool
             ok = false;
         }
     }
-    for x in w.backend.mon.contract_violations.lock().unwrap().iter() {
+    // closing the database is part of the history: a panic there is reported, not fatal
+    let backend = w.backend.clone();
+    if let Err(p) = catch_unwind(AssertUnwindSafe(move || drop(w))) {
+        let msg = p.downcast_ref::<String>().cloned().or_else(|| p.downcast_ref::<&str>().map(|s| s.to_string())).unwrap_or_default();
+        out.oracle_fail(format!("history-panic|panic while dropping readers, savepoints and the Database at the end of the history: {}", msg.lines().next().unwrap_or("")));
+        ok = false;
+    }
+    for x in backend.mon.contract_violations.lock().unwrap().iter() {
         out.oracle_fail(format!("backend-contract|{x}"));
     }
     ok
